@@ -120,6 +120,33 @@ def conflict_suffix(cx):
     rets = cx.pg(fc).returns()
     ok = bool(rets)
     nz = 0
+    # iterator form: ents.iter().find(|e| !match_term(e.index, e.term)) -> Some(e) => e.index, None => 0
+    finds = {x for _, v, _ in rets for x in walk(v) if x[0] == "call" and x[1].endswith("::find")} | {l[1] for lits, _, _ in rets for l in lits if l[0] == "in" and l[1][0] == "call" and l[1][1].endswith("::find")}
+    if finds:
+        from ..idioms import closure_returns
+        okf = len(finds) == 1
+        for fd in finds:
+            cl = [a for a in fd[2] if a[0] == "closure"]
+            okc = False
+            if len(cl) == 1:
+                cr = closure_returns(cx.prog, cl[0][1])
+                if cr and len(cr) == 1 and not cr[0][0]:
+                    r = cr[0][1]
+                    if r[0] == "un" and r[1] == "Not":
+                        m_ = match(call("~RaftLog::match_term", ANY, V("i"), V("t")), r[2])
+                        okc = bool(m_) and is_f(m_["i"], "Entry.index") and is_f(m_["t"], "Entry.term") and m_["i"][1] == m_["t"][1]
+            okf = okf and okc
+            for lits, v, _ in rets:
+                some = any(l[0] == "in" and l[1] == fd and l[2] == frozenset(["Some"]) for l in lits)
+                none = any(l[0] == "in" and l[1] == fd and l[2] == frozenset(["None"]) for l in lits)
+                if none:
+                    okf = okf and v == ("int", 0)
+                elif some:
+                    okf = okf and v == ("field", ("tfield", ("vfield", fd, "core::option::Option::Some", 0), 0), "Entry.index") or (okf and is_f(v, "Entry.index") and any(x == fd for x in walk(v)))
+                else:
+                    okf = False
+        cx.check(okf, "find_conflict", "find_conflict returns the index of the first entry e with !match_term(e.index, e.term), else 0 (iterator form)", return_paths=len(rets))
+        return
     for lits, v, _ in rets:
         if v == ("int", 0):
             # fall-through: the iteration is exhausted
